@@ -67,6 +67,11 @@ def build(rnd):
     body = [rnd.choice([b"", b"a", b"hello", b"x" * 70, b"0\r\n\r\nGET /smuggled HTTP/1.1\r\n\r\n"]) for _ in range(rnd.choice([0, 0, 1, 2]))]
     if method in (b"GET", b"HEAD", b"OPTIONS", b"DELETE") and rnd.random() < 0.7:
         body = []
+    if body and rnd.random() < 0.15:
+        # a content-coded body: raw (wire) length differs from the decoded length
+        import gzip
+        body = [gzip.compress(b"".join(body) * 3, mtime=0)]
+        fields.append([b"content-encoding", b"gzip"])
     pseudo_extra = rnd.choice([None, None, None, "dup-method", "dup-path", "unknown", "missing-path", "missing-scheme", "missing-method", "status-in-request"]) if adv else None
     return {
         "pair": pair, "method": method, "scheme": pick([b"http"], [b"HTTP", b"ftp", b"http\r\n", b""], 0.1),
